@@ -132,6 +132,18 @@ impl Sink {
         let i = (0..self.outs.len()).min_by_key(|&i| self.bytes[i]).unwrap();
         self.bytes[i] += case.cells.len() * 40 + 200;
         self.outs[i].ev(&ev);
+        // the DEFAULT save path (lossles_output = false: the colour optimiser runs before the writer): the picture may be normalised,
+        // but compressed and uncompressed must still decode to the same cells (every fourth buffer)
+        if self.id % 4 == 0 {
+            let mut o = SaveOptions::new();
+            o.save_sauce = case.sauce;
+            o.compress = true;
+            let (_, cb) = file_rec(guard(|| buf.to_bytes("xb", &o).map_err(|e| e.to_string())));
+            o.compress = false;
+            let (_, rb) = file_rec(guard(|| buf.to_bytes("xb", &o).map_err(|e| e.to_string())));
+            let (dc, dr) = (load_rec(&cb), load_rec(&rb));
+            self.outs[i].ev(&json!({"ev":"xbd","id":self.id,"k":case.k,"w":case.w,"h":case.h,"ice":case.ice as u8,"nf":nf,"dc":dc,"dr":dr}));
+        }
         *self.rows.entry(format!("{}:nf{}:w{}", case.k, nf, case.w)).or_insert(0) += case.h as u64;
     }
 }
